@@ -343,3 +343,65 @@ def bool_definitions(fn, name):
                 if is_ref(lhs, name) and rhs is not None and how in ('=', 'decl'):
                     others.append((rhs, ev['line']))
     return conds, others
+
+
+def whole_string_equality(prog, rule):
+    """The whole-string comparators names are recognised with (_dbus_string_equal, _dbus_string_equal_c_str)
+    answer TRUE only when every byte pair was compared equal and BOTH strings are exhausted."""
+    from .cfg import Explorer, is_int as _is_int, walk as _walk
+    STR = 'dbus/dbus-string.c'
+    for name in ('_dbus_string_equal_c_str', '_dbus_string_equal'):
+        fn = prog.fn(name, STR)
+        ids = {}
+        for b, i, ev in fn.events():
+            if ev['ev'] == 'decl' and ev['var']['name'] in ('ap', 'bp', 'a_end'):
+                ids[ev['var']['name']] = ev['var']['id']
+        if set(ids) != {'ap', 'bp', 'a_end'}:
+            raise AnalysisBroken('%s: cursors ap / bp / a_end not found' % name)
+
+        def akey(atom, resolve, ids=ids):
+            if atom[0] == 'cmp' and atom[1] == '==':
+                l, r = atom[2], atom[3]
+                if is_ref(l) and is_ref(r) and {l.get('id'), r.get('id')} == {ids['ap'], ids['a_end']}:
+                    return ('a-exhausted', frozenset([ids['ap']]))
+                if l.get('k') == 'un' and r.get('k') == 'un' and l['op'] == '*' and r['op'] == '*' and \
+                        is_ref(l['e']) and is_ref(r['e']) and {l['e'].get('id'), r['e'].get('id')} == {ids['ap'], ids['bp']}:
+                    return ('bytes-equal', frozenset([ids['ap'], ids['bp']]))
+                if l.get('k') == 'member' and r.get('k') == 'member' and l.get('field') == 'len' and r.get('field') == 'len':
+                    return ('same-length',)
+            if atom[0] == 'truthy' and atom[1].get('k') == 'un' and atom[1]['op'] == '*' and is_ref(atom[1]['e']) \
+                    and atom[1]['e'].get('id') == ids['bp']:
+                return ('b-not-at-nul', frozenset([ids['bp']]))
+            return None
+        nadv = [0]
+
+        def on_event(user, ev, ctx, ids=ids):
+            for lhs, how, rhs in written_lvalues(ev):
+                if is_ref(lhs) and lhs.get('id') == ids['ap'] and how in ('++', '+='):
+                    nadv[0] += 1
+                    if not any(k[0] == 'bytes-equal' and v is True for k, v in ctx.atoms().items()):
+                        ctx.report('the cursor advances over a byte pair that was not compared equal', ev['line'],
+                                   key='uncompared')
+            return user
+
+        def on_exit(user, ctx, ret, ev, name=name):
+            if ret is None or ctx.const_of(ret) != 1:
+                return
+            at = ctx.atoms()
+            if not any(k[0] == 'a-exhausted' and v is True for k, v in at.items()):
+                ctx.report('%s answers TRUE without the DBusString being exhausted' % name, ev['line'], key='a-left')
+            if name.endswith('c_str'):
+                if not any(k[0] == 'b-not-at-nul' and v is False for k, v in at.items()):
+                    ctx.report('%s answers TRUE without the C string being at its terminating NUL: a proper prefix '
+                               'compares equal' % name, ev['line'], key='b-left')
+            else:
+                if not any(k[0] == 'same-length' and v is True for k, v in at.items()):
+                    ctx.report('%s answers TRUE without the lengths having been found equal' % name, ev['line'],
+                               key='b-left')
+        ex = Explorer(fn, on_event=on_event, on_exit=on_exit, atom_key=akey, track=None, cap=300000).run()
+        if nadv[0] < 1:
+            raise AnalysisBroken('%s: cursor advance not found' % name)
+        if ex.reports:
+            rule.from_reports(ex.reports, keyfn=lambda k, rep, name=name: '%s:%s' % (name, k))
+        else:
+            rule.ok('%s:whole-string' % name)
